@@ -1,10 +1,13 @@
 (* Model/Cdb: executable model of /repo/dnsrocks/go-cdb-mods (writer.go, make.go,
    cdb.go, dump.go).  No proofs in this file.
 
-   The hash function is a parameter H : bytes -> N.  The real code hashes keys with
-   spooky.Hash32 (reader) / spooky.New(0,0)+Write+Sum32 (writer, Make); the classic
-   cdb hash is defined below as [cdb_hash] as one more instance.  Every theorem of
-   Proofs/Cdb*.v holds for an arbitrary H.
+   The hash function is a parameter H : bytes -> N, the SAME for writer, Make and
+   reader.  In the Go code the writer and Make use the streaming hasher cdbHash()
+   (spooky.New(0,0), Write, Sum32) and the reader uses hashKey() (hash.go); that these
+   two code paths compute the same function is not part of the model - it is established
+   only by the differential run (before /repo commit 954ef0a they disagreed for keys of
+   96..191 bytes).  The classic cdb hash is defined below as [cdb_hash] as one more
+   instance.  Every theorem of Proofs/Cdb*.v holds for an arbitrary H.
 
    Two levels:
    - structured image ([image]: records with their file positions, 256 tables of
